@@ -96,8 +96,9 @@ class memory_cap(object):
             self.r.setrlimit(self.r.RLIMIT_AS, self.old)
 
 
-def call(t0, t1, bump, form):
-    """one public call under the watchdog; returns the encoded outcome"""
+def call(t0, t1, bump, form, keep=None):
+    """one public call under the watchdog; returns the encoded outcome (and hands the returned object itself to `keep`,
+    for histories in which the caller goes on to use - and change - what it was given)"""
     from pyg_base import drange, calendar
     a, z, b = inst(t0), inst(t1), render(bump, form)
     if form == 'cal':
@@ -115,6 +116,8 @@ def call(t0, t1, bump, form):
                 r = f(a, z, b)
         finally:
             signal.setitimer(signal.ITIMER_VIRTUAL, 0)
+        if keep is not None:
+            keep.append(r)
         return enc_list(r)
     except Timeout:
         _timeouts[0] += 1
@@ -128,8 +131,35 @@ def call(t0, t1, bump, form):
             _timeouts[1] += time.process_time() - cpu0
 
 
-def case_of(t0, t1, bump, form):
-    """stable, matchable description of a failing input"""
+def mutate(r, how, rng=None):
+    """what a caller may do, in place, to a list it was given"""
+    if not isinstance(r, list):
+        return
+    if how == 'append':
+        r.append(datetime.datetime(1999, 12, 31))
+    elif how == 'pop':
+        if r:
+            r.pop()
+    elif how == 'clear':
+        del r[:]
+    elif how == 'reverse':
+        r.reverse()
+    elif how == 'sort_desc':
+        r.sort(reverse=True)
+    elif how == 'overwrite':
+        for i in range(len(r)):
+            r[i] = datetime.datetime(1999, 12, 31)
+
+
+def case_of(t0, t1, bump, form, before=None):
+    """stable, matchable description of a failing input (before = what happened earlier in the history)"""
+    c = _case_of(t0, t1, bump, form)
+    c['history'] = before or []
+    c['after_mutation'] = bool(before)
+    return c
+
+
+def _case_of(t0, t1, bump, form):
     c = {'op': 'drange', 'kind': bump[0], 'form': form, 't0': t0, 't1': t1, 'bump': bump[1],
          'subsecond': bool(t0[2] or t1[2]), 'backward': t1 < t0}
     if bump[0] == 'tenor':
@@ -145,10 +175,13 @@ def case_of(t0, t1, bump, form):
     return c
 
 
-def observe(t0, t1, bump, form):
+def observe(t0, t1, bump, form, keep=None, before=None):
     if exhausted():
         raise GaveUp()
-    return {'t0': t0, 't1': t1, 'bump': bump, 'form': form, 'out': call(t0, t1, bump, form)}
+    o = {'t0': t0, 't1': t1, 'bump': bump, 'form': form, 'out': call(t0, t1, bump, form, keep)}
+    if before:
+        o['before'] = before
+    return o
 
 
 def judge(ctx, obs, count=True):
@@ -163,7 +196,7 @@ def judge(ctx, obs, count=True):
             raise Machinery('Trace_Drange: observation %d is outside the specified domain: %r' % (i, {k: o[k] for k in ('t0', 't1', 'bump')}))
         out = o['out']
         shown = out if out[0] != 'ok' else ['ok', out[1][:4] + (['... %d elements' % len(out[1])] if len(out[1]) > 4 else [])]
-        ctx.violation(clause, case_of(o['t0'], o['t1'], o['bump'], o['form']), {'observed': shown})
+        ctx.violation(clause, case_of(o['t0'], o['t1'], o['bump'], o['form'], o.get('before')), {'observed': shown})
     return bad
 
 
@@ -209,13 +242,73 @@ def s2c(ctx, cases):
     return not gave_up
 
 
+def s2c_histories(ctx, hists):
+    """two calls over one window; the list the first call returned is changed in place in between.  Each call must
+    return what TLC printed for it - results are history independent"""
+    suspects = []
+    hists = sorted(hists, key=lambda h: json.dumps(h))
+    for k, h in enumerate(hists):
+        first, mut, second = h['hist']
+        try:
+            keep = []
+            f1 = 'call' if first['bump'][0] != 'tenor' else 'l'
+            o1 = observe(h['t0'], h['t1'], first['bump'], f1, keep)
+            if o1['out'] not in first['accept']:
+                suspects.append(o1)
+            if keep:
+                mutate(keep[0], mut['how'])
+            before = [{'op': 'drange', 'kind': first['bump'][0], 'bump': first['bump'][1]}, {'op': 'mutate_result', 'how': mut['how']}]
+            f2 = ('call', 'cal')[k % 2] if second['bump'][0] != 'tenor' else ('l', 'u', 'p')[k % 3]
+            o2 = observe(h['t0'], h['t1'], second['bump'], f2, None, before)
+            ctx.evals += 2
+            if o2['out'] not in second['accept']:
+                suspects.append(o2)
+        except GaveUp:
+            break
+        ctx.note(('hist', repr((h['t0'], h['t1'], first['bump'], mut['how'], second['bump']))))
+        if k % 3999 == 0:
+            ctx.sample({'s2c_history': {'t0': h['t0'], 't1': h['t1'], 'hist': [{kk: (vv if kk != 'accept' else [a if a[0] != 'ok' else ['ok', a[1][:3]] for a in vv])
+                                                                              for kk, vv in e.items()} for e in h['hist']]}})
+        ctx.traces += 1
+    bad = judge(ctx, suspects) or []
+    if len({i for i, _ in bad}) != len(suspects):
+        from harness.core import Machinery
+        raise Machinery('S2C histories: %d outcomes differ from what MC_Drange printed but Trace_Drange rejects only %d' % (len(suspects), len({i for i, _ in bad})))
+
+
 # ---- C2S ---------------------------------------------------------------------------------------
 def rand_case(rng, big):
     """one (t0, t1, bump, forms, subsecond?) drawn from the families of the quantifier"""
     o = rng.randint(FIRST + 4000, LAST - 4000)
-    fam = rng.choice(('day', 'day', 'day', 'bday', 'bday', 'month', 'month', 'intraday', 'intraday', 'td'))
+    fam = rng.choice(('day', 'day', 'day', 'bday', 'bday', 'month', 'month', 'intraday', 'intraday', 'td', 'opposed', 'opposed'))
     sgn = rng.choice((1, -1))
     forms = None
+    if fam == 'opposed':
+        # mixed-sign compound whose LEADING part opposes the net movement sgn ('-1d1m', '1d-1w', '3h-1d'): the direction of a
+        # bump is where dt_bump moves t0.  (The 20% flip at the end turns it into one that really points away from t1.)
+        kind = rng.choice(('dw', 'bw', 'dm', 'wq', 'my', 'hd', 'nh', 'sn'))
+        lead, main = {'dw': ((1, 6, 'd'), (1, 4, 'w')), 'bw': ((1, 2, 'b'), (1, 3, 'w')), 'dm': ((1, 20, 'd'), (1, 6, rng.choice('mq'))),
+                      'wq': ((1, 3, 'w'), (1, 4, 'q')), 'my': ((1, 11, 'm'), (1, 3, 'y')), 'hd': ((1, 20, 'h'), (1, 3, 'd')),
+                      'nh': ((1, 50, 'n'), (1, 5, 'h')), 'sn': ((1, 45, 's'), (1, 30, 'n'))}[kind]
+        parts = [[-sgn * rng.randint(lead[0], lead[1]), lead[2]], [sgn * rng.randint(main[0], main[1]), main[2]]]
+        if rng.random() < 0.25 and kind in ('dm', 'wq', 'my'):
+            parts.append([rng.choice((1, -1)) * rng.randint(0, 1), 'd'])
+        bump = ['tenor', parts]
+        if kind in ('dm', 'wq', 'my'):
+            while datetime.date.fromordinal(o).day > 28:
+                o -= 1
+        if kind in ('dw', 'bw', 'dm', 'wq', 'my'):
+            t0 = [o, 0, 0]
+            t1 = [o + sgn * rng.choice((1, 3, 30, 365, rng.randint(0, 1500 if kind in ('wq', 'my') else 400))), 0, 0]
+        else:
+            t0 = [o, rng.randrange(86400), 0]
+            x = inst(t0) + datetime.timedelta(seconds=sgn * rng.choice((1, 3600, 86400, rng.randint(0, {'hd': 4000000, 'nh': 400000, 'sn': 40000}[kind]))))
+            t1 = [x.toordinal(), x.hour * 3600 + x.minute * 60 + x.second, 0]
+        if rng.random() < 0.03:
+            t1 = list(t0)
+        if rng.random() < 0.3:
+            bump = flip(bump)
+        return t0, t1, bump, forms
     if fam in ('day', 'bday'):
         tod = [0, 0] if rng.random() < 0.7 else [rng.randrange(86400), 0]
         span = rng.choice((0, 1, 2, 5, 7, 30, 31, 365, rng.randint(0, 400), rng.randint(0, 1500 if big else 600)))
@@ -331,15 +424,29 @@ def c2s(ctx, ncases, nsub, big):
     for k, (t0, t1, bump, forms) in enumerate(cases):
         if exhausted():
             break
+        # every fourth call is the start of a history: the caller changes the list it was given, in place, and asks again
+        keep = [] if ctx.rng.random() < 0.25 else None
         if forms == 'int3':
             n = bump[1]
-            obs.append(observe(t0, t1, bump, 'call'))
-            obs.append(observe(t0, t1, ['td', [n, 0, 0]], 'call'))
-            obs.append(observe(t0, t1, ['tenor', [[n, 'd']]], ctx.rng.choice(('l', 'u', 'p', 'cal'))))
+            obs.append(observe(t0, t1, bump, 'call', keep))
+            obs.append(observe(t0, t1, ['td', [n, 0, 0]], 'call', keep))
+            obs.append(observe(t0, t1, ['tenor', [[n, 'd']]], ctx.rng.choice(('l', 'u', 'p', 'cal')), keep))
         elif bump[0] == 'tenor':
-            obs.append(observe(t0, t1, bump, ctx.rng.choice(('l', 'l', 'u', 'p') if has_b(bump) else ('l', 'l', 'u', 'p', 'cal'))))
+            obs.append(observe(t0, t1, bump, ctx.rng.choice(('l', 'l', 'u', 'p') if has_b(bump) else ('l', 'l', 'u', 'p', 'cal')), keep))
         else:
-            obs.append(observe(t0, t1, bump, ctx.rng.choice(('call', 'call', 'cal'))))
+            obs.append(observe(t0, t1, bump, ctx.rng.choice(('call', 'call', 'cal')), keep))
+        if keep:
+            how = ctx.rng.choice(('append', 'pop', 'clear', 'reverse', 'sort_desc', 'overwrite'))
+            for r in keep:
+                mutate(r, how)
+            before = [{'op': 'drange', 'kind': bump[0], 'bump': bump[1]}, {'op': 'mutate_result', 'how': how}]
+            again = [bump]
+            if bump[0] == 'int':
+                again += [['int', ctx.rng.choice((1, -1, 2, -2, 7, -7, -bump[1]))], ['td', [bump[1], 0, 0]]]
+            elif bump[0] == 'tenor' and len(bump[1]) == 1:
+                again.append(['tenor', [[ctx.rng.choice((1, -1, 2, -3)) * (bump[1][0][0] or 1), bump[1][0][1]]]])
+            for b2 in again:
+                obs.append(observe(t0, t1, b2, 'call' if b2[0] != 'tenor' else 'l', None, before))
     ctx.evals += len(obs)
     judge(ctx, obs)
     for o in obs:
@@ -357,11 +464,13 @@ def run(ctx):
                 'within bounds, iterates the bump, int = timedelta = nd, 1b = all weekdays between the endpoints, kb = every k-th, wrong '
                 'direction rejected, t0 = t1 gives [t0], termination (liveness under weak fairness). S2C: every case of the TLC menu replayed '
                 'through drange (two spellings: lower / upper / signed period strings, Calendar.drange for non-b bumps) == an accepted outcome; '
+                'two-call histories over one window with the first returned list changed in place in between (results are history independent); '
                 'mismatches are classified by Trace_Drange. C2S: random start days of 1911-2289, spans up to several years, all bump kinds, 20% '
                 'pointing away, validated by Trace_Drange. Non-trivial = a list of at least 2 elements or a rejection; distinct by (t0, t1, bump).')
     ctx.mc('MC_Drange', 'MC_Drange_quick.cfg' if ctx.quick else 'MC_Drange_thorough.cfg')
     _timeouts[:] = [0, 0.0, SLOW_BUDGET_S['quick' if ctx.quick else 'thorough']]
     try:
+        s2c_histories(ctx, ctx.generate('MC_Drange', 'MC_Drange_genH.cfg'))
         if s2c(ctx, ctx.generate('MC_Drange', 'MC_Drange_gen.cfg' if ctx.quick else 'MC_Drange_gen2.cfg')):
             c2s(ctx, *((1500, 60, False) if ctx.quick else (20000, 600, True)))
     except GaveUp:
